@@ -191,12 +191,49 @@ func (p *Program) detectRenames() {
 	}
 	key := func(f FuncSig) string { return f.Pkg + "\x00" + f.Recv + "\x00" + f.Name }
 	cur := p.Snapshot()
-	curSet, refSet := map[string]bool{}, map[string]bool{}
-	for _, f := range cur {
-		curSet[key(f)] = true
+	// renamed types first: a named type that the reference has and the tree lacks, and one the tree has and the
+	// reference lacks, in the same package and with the same shape, are one type renamed. Receivers and
+	// signatures of the tree are then read with the reference names.
+	typeOld := p.detectTypeRenames()
+	norm := func(s string) string {
+		for cur, old := range typeOld {
+			for {
+				i := strings.Index(s, cur)
+				if i < 0 {
+					break
+				}
+				j := i + len(cur)
+				if j < len(s) && (s[j] == '_' || s[j] >= '0' && s[j] <= '9' || s[j] >= 'a' && s[j] <= 'z' || s[j] >= 'A' && s[j] <= 'Z') {
+					// a longer identifier: replace nothing here (rare; give up on this occurrence)
+					s = s[:i] + "\x01" + s[i+1:]
+					continue
+				}
+				s = s[:i] + old + s[j:]
+			}
+			s = strings.ReplaceAll(s, "\x01", cur[:1])
+		}
+		return s
 	}
+	normalised := func(f FuncSig) FuncSig {
+		f.Recv, f.Sig = norm(f.Recv), norm(f.Sig)
+		return f
+	}
+	refSet := map[string]bool{}
+	refBy := map[string]FuncSig{}
 	for _, f := range ref {
 		refSet[key(f)] = true
+		refBy[key(f)] = f
+	}
+	curSet := map[string]bool{}
+	var curN []FuncSig
+	for _, f := range cur {
+		nf := normalised(f)
+		curSet[key(nf)] = true
+		if key(nf) != key(f) && refSet[key(nf)] {
+			// a method of a renamed type, itself unchanged
+			p.alias[key(f)] = refBy[key(nf)]
+		}
+		curN = append(curN, nf)
 	}
 	group := func(f FuncSig) string { return f.Pkg + "\x00" + f.Recv + "\x00" + f.Sig }
 	gone, fresh := map[string][]FuncSig{}, map[string][]FuncSig{}
@@ -205,9 +242,11 @@ func (p *Program) detectRenames() {
 			gone[group(f)] = append(gone[group(f)], f)
 		}
 	}
-	for _, f := range cur {
+	for i, f := range curN {
 		if !refSet[key(f)] {
-			fresh[group(f)] = append(fresh[group(f)], f)
+			// grouped under the normalised receiver and signature, but kept with the tree's own receiver: the alias
+			// is looked up by what the tree says
+			fresh[group(f)] = append(fresh[group(f)], FuncSig{Pkg: cur[i].Pkg, Recv: cur[i].Recv, Name: cur[i].Name, Sig: f.Sig, FP: cur[i].FP})
 		}
 	}
 	paired := map[string]bool{}
@@ -806,4 +845,97 @@ func (p *Program) RefName(f *ssa.Function) string {
 		}
 	}
 	return id
+}
+
+// TypeSig is one named type of the reference snapshot (types.json).
+type TypeSig struct {
+	Pkg   string `json:"pkg"`
+	Name  string `json:"name"`
+	Shape string `json:"shape"`
+}
+
+// TypeSnapshot lists the named types of the module with a shape that does not mention their own name:
+// the underlying type, with the field types (not names) for structs.
+func (p *Program) TypeSnapshot() []TypeSig {
+	var out []TypeSig
+	q := func(tp *types.Package) string { return tp.Name() }
+	for _, pk := range p.Pkgs {
+		scope := pk.Types.Scope()
+		for _, name := range scope.Names() {
+			tn, ok := scope.Lookup(name).(*types.TypeName)
+			if !ok || tn.IsAlias() {
+				continue
+			}
+			shape := ""
+			switch u := tn.Type().Underlying().(type) {
+			case *types.Struct:
+				var fs []string
+				for i := 0; i < u.NumFields(); i++ {
+					fs = append(fs, types.TypeString(u.Field(i).Type(), q))
+				}
+				shape = "struct{" + strings.Join(fs, ";") + "}"
+			default:
+				shape = types.TypeString(u, q)
+			}
+			if nt, ok := tn.Type().(*types.Named); ok {
+				shape += fmt.Sprintf("/%d methods", nt.NumMethods())
+			}
+			out = append(out, TypeSig{Pkg: p.Rel(pk.Types), Name: name, Shape: shape})
+		}
+	}
+	sort.Slice(out, func(i, j int) bool {
+		if out[i].Pkg != out[j].Pkg {
+			return out[i].Pkg < out[j].Pkg
+		}
+		return out[i].Name < out[j].Name
+	})
+	return out
+}
+
+// detectTypeRenames returns "pkgname.CurrentName" -> "pkgname.ReferenceName" for unambiguous pairs.
+func (p *Program) detectTypeRenames() map[string]string {
+	res := map[string]string{}
+	if SnapshotPath == "" {
+		return res
+	}
+	b, err := os.ReadFile(filepath.Join(filepath.Dir(SnapshotPath), "types.json"))
+	if err != nil {
+		return res
+	}
+	var ref []TypeSig
+	if json.Unmarshal(b, &ref) != nil {
+		return res
+	}
+	cur := p.TypeSnapshot()
+	k := func(t TypeSig) string { return t.Pkg + "\x00" + t.Name }
+	curSet, refSet := map[string]bool{}, map[string]bool{}
+	for _, t := range cur {
+		curSet[k(t)] = true
+	}
+	for _, t := range ref {
+		refSet[k(t)] = true
+	}
+	gone, fresh := map[string][]TypeSig{}, map[string][]TypeSig{}
+	for _, t := range ref {
+		if !curSet[k(t)] {
+			gone[t.Pkg+"\x00"+t.Shape] = append(gone[t.Pkg+"\x00"+t.Shape], t)
+		}
+	}
+	for _, t := range cur {
+		if !refSet[k(t)] {
+			fresh[t.Pkg+"\x00"+t.Shape] = append(fresh[t.Pkg+"\x00"+t.Shape], t)
+		}
+	}
+	for g, olds := range gone {
+		news := fresh[g]
+		if len(olds) == 1 && len(news) == 1 {
+			pkgName := olds[0].Pkg
+			if i := strings.LastIndex(pkgName, "/"); i >= 0 {
+				pkgName = pkgName[i+1:]
+			}
+			res[pkgName+"."+news[0].Name] = pkgName + "." + olds[0].Name
+			p.Renames = append(p.Renames, fmt.Sprintf("type %s.%s is %s of the reference tree, renamed", olds[0].Pkg, news[0].Name, olds[0].Name))
+		}
+	}
+	return res
 }
